@@ -275,11 +275,20 @@ def k7(ctx, rid):
     c03.i8(ctx, rid)
 
 
+def k8(ctx, rid):
+    """writes made after recovery survive further restarts only if a skipped/quarantined blob's id is never handed out again
+    (C07.H6 / H6d instances)"""
+    import props.c07 as c07
+    c07.h6(ctx, rid)
+    c07.h6d(ctx, rid)
+
+
 RULES = [
     Rule('C06.K1', 'every blob-file read / decode in the open path is converted to a quarantine-class error before `?`', k1, 6),
     Rule('C06.K2', 'the sequential scan accepts a header only after comparing the end of its extent with the file size and stops only at the exact end of file', k2, 2),
     Rule('C06.K4', 'quarantine is a byte-preserving rename (C07.H7 instance)', k4, 1),
     Rule('C06.K5', 'init promotes an existing blob to active only when one was opened; otherwise a fresh blob is created', k5, 1),
     Rule('C06.K6', 'explicit validation errors of the scan are constructed in a quarantine class', k6, 4),
+    Rule('C06.K8', 'the id of every blob that failed to open (ignored or quarantined) is never reused (C07.H6/H6d instances)', k8, 4),
     Rule('C06.K7', 'a torn or stale index file is never trusted: gate tests every header fact (blob size by equality), the file extent, and the written flag is set in a second phase (C03.I2/I5/I8 instances)', k7, 8),
 ]
